@@ -121,6 +121,10 @@ int __wrap_deflate(z_streamp s, int flush)
     g_wrap.deflate_calls++;
     check_region(s->next_in, s->avail_in);
     check_region(s->next_out, s->avail_out);
-    return __real_deflate(s, flush);
+    if (!g_wrap.dtrace) return __real_deflate(s, flush);
+    unsigned in0 = s->avail_in, out0 = s->avail_out;
+    int r = __real_deflate(s, flush);
+    g_wrap.dcalls.push_back({flush, in0, out0, in0 - s->avail_in, out0 - s->avail_out, r});
+    return r;
 }
 }
